@@ -88,12 +88,13 @@ def gen_harnesses(tier, seed):
         out.append((f"c10_one_{i}", src, dict(family="one position", methods=methods)))
     U = 10 if tier == "quick" else 60
     for i in range(U):
-        b, other = rng.choice((("int", "str"), ("str", "int"), ("int", "list")))
-        methods = [dict(kind="depunion", bound=b, other=other, pred=pred(b), prio=0, double=(i % 3 == 2)), dict(kind="static", bound="object", prio=-1)]
+        b, other = rng.choice((("int", "str"), ("str", "int"), ("int", "list"), ("str", "list")))
+        methods = [dict(kind="depunion", bound=b, other=other, pred=pred(b), prio=0, double=(i % 3 == 2),
+                        plain=("HasMethod['__len__']" if (i % 3 == 1 and b == "str") else None)), dict(kind="static", bound="object", prio=-1)]
         if rng.random() < 0.5:
             methods.append(dict(kind="static", bound=b, prio=-1 if rng.random() < 0.5 else 0))
         checks = [("int", "int", None), ("str", "str", "len(x) <= 2")]
-        src = gen.one_position_module(methods, [0, 1, 2, 11, 12, -3, 7, True, "a", "ab", "", [1], []], checks)
+        src = gen.one_position_module(methods, [0, 1, 2, 11, 12, -3, 7, True, "a", "ab", "", [1], []], checks, prelude="from ovld.types import HasMethod")
         out.append((f"c10_union_{i}", src, dict(family="dependent type inside a union", methods=methods)))
     # two unrelated static methods (abstract classes that both cover the value) below a dependent method: when the condition does not hold,
     # dispatch continues as if the dependent method were absent -- here: with the ambiguity error
